@@ -119,8 +119,8 @@ def descr (sel : Bool) : M → V → R
       descrParts false (somes (matchZip sel ms (attrs.map (getAttr v)))) (descrZip sel ms (attrs.map (getAttr v)))
   | .dict _ ks ms, v => match v with
       | .dict oks ovs =>
-          descrParts false (somes (matchZip sel ms (ks.map fun k => lookupKey k oks ovs)))
-            (descrZip sel ms (ks.map fun k => lookupKey k oks ovs))
+          descrParts false (somes (matchZip sel ms (ks.map fun k => lookupK k oks ovs)))
+            (descrZip sel ms (ks.map fun k => lookupK k oks ovs))
       | _ => none
   | .annotate m, v => descr sel m v
   | .after f _ m, v => match applyPre f v with
